@@ -192,6 +192,58 @@ func c03Check(ctx *Ctx, db *database.Database, hist []string, q string, o databa
 			}
 		}
 	}
+	// The same request at a limit below the number of candidates: whatever is returned must still be one of
+	// the candidates just verified, with the score just verified (the statement's set and score clauses do not
+	// depend on the limit; which of the candidates are returned is not asserted here).
+	if len(res) >= 2 {
+		h := 0
+		for i := 0; i < len(q); i++ {
+			h = h*31 + int(q[i])
+		}
+		if h < 0 {
+			h = -h
+		}
+		small := []int{1, 2, 3, len(res) / 2, len(res) - 1}[h%5]
+		if small < 1 {
+			small = 1
+		}
+		if small >= len(res) {
+			small = len(res) - 1
+		}
+		so := o
+		so.Limit = small
+		var sres []database.SearchResult
+		scs := map[string]interface{}{"history": hist, "n": N, "query": q, "opts": vlib.OptsJ(so), "after": where, "candidates_at_full_limit": len(res)}
+		if ctx.R.Guard("C03", "SearchUniversal", scs, func() {
+			if len(search) > 0 && search[0] != nil {
+				sres = search[0](q, so)
+			} else {
+				sres = db.SearchUniversal(q, so)
+			}
+		}) {
+			ctx.R.Path("small-limit-requests", 1)
+			for rank, r := range sres {
+				idx := vlib.IndexOf(cmds, r.Command)
+				if idx < 0 {
+					ctx.R.Violate(vlib.Violation{Property: "C03", Clause: "foreign-entry", Path: where + "/small-limit", Detail: fmt.Sprintf("limit %d: rank %d is not an entry of the current command list", small, rank), Witness: scs})
+					break
+				}
+				full, ok := got[idx]
+				if !ok {
+					ctx.R.Violate(vlib.Violation{Property: "C03", Clause: "spurious-candidate", Path: where + "/small-limit",
+						Detail:  fmt.Sprintf("limit %d: entry %d (%s) is returned although the same request at limit %d does not return it", small, idx, vlib.Q(vlib.Trunc(cmds[idx].Command, 80)), o.Limit),
+						Witness: scs})
+					continue
+				}
+				if !relClose(r.Score, full) {
+					ctx.R.Violate(vlib.Violation{Property: "C03", Clause: "score", Path: where + "/small-limit",
+						Detail:  fmt.Sprintf("limit %d: entry %d (%s) has score %.12g, at limit %d the same request gives it %.12g (the recomputed BM25F sum)", small, idx, vlib.Q(vlib.Trunc(cmds[idx].Command, 60)), r.Score, o.Limit, full),
+						Witness: scs})
+				}
+				ctx.R.Path("small-limit-entries-checked", 1)
+			}
+		}
+	}
 	if nontrivial {
 		ctx.R.Nontriv(strings.Join(hist, ";"), q, fmt.Sprintf("%+v", vlib.OptsJ(o)))
 		if exactMode {
@@ -556,6 +608,7 @@ func engineIndexScan(ctx *Ctx) {
 						dup := db.Commands[r.Intn(len(db.Commands))]
 						reword(&dup)
 						db.Commands = append(db.Commands, dup)
+						cdb.InvalidateCache() // (the wrapper was not told; answers stored under a limit that stays the same would be stale)
 						hist = append(hist, "append(reworded copy of an entry)")
 						where = "append"
 					default:
@@ -676,6 +729,7 @@ func engineIndexScan(ctx *Ctx) {
 						}
 					}
 					db.Commands = append(db.Commands, extra...)
+					cdb.InvalidateCache() // (the wrapper was not told; answers stored under a limit that stays the same would be stale)
 					hist = append(hist, fmt.Sprintf("append(%d)", k))
 					if r.Intn(2) == 0 { // the caller builds the index itself after changing the list, as the exported method invites to
 						db.BuildUniversalIndex()
